@@ -171,7 +171,7 @@ def gen_case(i, start, seq, EC, nprocs=1):
 class C14(Check):
     id = "C14"
     exhaustive = True
-    rule = ("bounded exhaustive exploration: from {created, opened writable, opened read-only} every sequence of mode-changing calls (enddef, redef, "
+    rule = ("bounded exhaustive exploration: from {created, opened writable, opened read-only} every sequence (complete enumeration) of mode-changing calls (enddef, redef, "
             "begin_indep_data, end_indep_data, close+reopen writable, close+reopen read-only) up to depth 3 (quick) / 4 (thorough); in the start "
             "state and after every step a battery of ~55 probe calls from every API family (define, attribute put/overwrite/rename/delete, "
             "blocking put/get collective and independent incl. varn, argument-error precedence, nonblocking post / wait / wait_all / cancel, "
@@ -189,8 +189,6 @@ class C14(Check):
         for start in ("create", "open_rw", "open_ro"):
             for d in range(0, depth + 1):
                 for seq in itertools.product(MODE_CALLS, repeat=d):
-                    if d == depth and tier == "quick" and (hash((start, seq)) % 2):
-                        continue       # quick: all sequences up to depth 2, every second one of depth 3
                     yield gen_case(i, start, seq, EC, nprocs=(2 if i % 9 == 0 else 1))
                     i += 1
 
